@@ -29,6 +29,7 @@ def Pc.runningQ : Pc → Option (Nat × Nat)
   | .siIdle q j => some (j, q)
   | .pfPollRel _ next => next.runningQ
   | .dqWakeWith _ _ _ k => k.runningQ
+  | .fdDrop _ k => k.runningQ
   | _ => none
 
 /-- lifetime-erased jobs are created by `sync` only (never through `schedule_job_desync`) -/
@@ -55,6 +56,7 @@ def Pc.callerOk : Pc → Bool
       (match c with | .caller q => k.plainFor q | _ => true)
   | .pfPollRel _ next => next.callerOk
   | .dqWakeWith _ _ _ k => k.callerOk
+  | .fdDrop _ k => k.callerOk
   | .dsPush _ kind => !kind.isErased
   | _ => true
 
